@@ -3,8 +3,10 @@
   ASCII / binary (delimited framings): WHATEVER the receiver holds after any noise, once one valid frame has
   arrived whole its buffer is empty again, so every later valid frame is delivered (noise costs at most the one
   frame that overlaps it) and the backlog is zero between frames.  RTU (no delimiters): the server-side length
-  oracle never asks for more than 268 bytes, so a decision is taken by then; a failed CRC empties the buffer and
-  the next frame boundary is a synchronisation point.  The client-side oracle is not bounded that way (known
+  oracle never asks for more than 268 bytes, so the backlog after EVERY call is below 268 bytes
+  (`rtu_server_backlog_bounded`), and a waiting receiver that sees 268 bytes flushes and is aligned, after which
+  every valid frame is delivered (`rtu_server_resync`, `rtu_server_never_deaf`; hypothesis: no false frame starts
+  in the noise).  The flush takes the whole read with it (`rtu_flush_discards_read_counterexample`, known finding).  The client-side oracle is not bounded that way (known
   finding, counterexample below).
 -/
 import Pymodbus.Lemmas.FramerResync
@@ -114,6 +116,154 @@ theorem rtu_server_decides (buf : Bytes) (hw : Bytes.WF buf) (hl : 268 ≤ buf.l
   rw [if_neg (by omega)]
   split <;> intro h <;> cases h
 
+/-- a frame recognised by the RTU receiver is at least two bytes long (so every iteration of the loop consumes) -/
+theorem rtu_frame_len (rule : Nat → RtuRule) (buf : Bytes) (n : Nat) (pdu : Bytes) (uid tid pid : Nat)
+    (h : rtuStep rule buf = .frame n pdu uid tid pid) : 2 ≤ n ∧ n ≤ buf.length := by
+  unfold rtuStep at h
+  split at h
+  · cases h
+  · split at h
+    · cases h
+    · split at h
+      · cases h
+      · simp only [] at h
+        split at h
+        · next hc => cases h; exact ⟨hc.1, by omega⟩
+        · cases h
+
+theorem wf_drop (buf : Bytes) (n : Nat) (h : Bytes.WF buf) : Bytes.WF (buf.drop n) :=
+  fun b hb => h b (List.mem_of_mem_drop hb)
+
+/-- server direction, run level, EVERY input: unless a decoder exception escaped from the call (the serial handler
+    then resets the framer), the receive loop stops only on an empty buffer or on fewer than 268 buffered bytes -/
+theorem rtu_server_run_backlog (decode : Bytes → PyM (Option μ)) (units : List Nat) (single : Bool)
+    (fuel : Nat) (buf : Bytes) (hf : buf.length < fuel) (hw : Bytes.WF buf)
+    (hn : NoRaise (run (rtuStep rtuRuleServer) decode units single fuel buf).1) :
+    (run (rtuStep rtuRuleServer) decode units single fuel buf).2.length < 268 := by
+  induction fuel generalizing buf with
+  | zero => omega
+  | succ fuel ih =>
+    rw [run] at hn ⊢
+    split at hn
+    · next hs =>
+      simp only [hs]
+      by_cases hl : 268 ≤ buf.length
+      · exact absurd hs (rtu_server_decides buf hw hl)
+      · omega
+    · next hs => simp [hs]
+    · next n hs => exact absurd hs (rtu_step_kinds _ _ _)
+    · next n pdu uid tid pid hs =>
+      obtain ⟨h2, hle⟩ := rtu_frame_len _ _ _ _ _ _ _ hs
+      have hlen : (buf.drop n).length < fuel := by simp only [List.length_drop]; omega
+      simp only [hs]
+      split at hn
+      · next hv =>
+        simp only [hv, if_true]
+        split at hn
+        · next e he => exact absurd rfl (hn (.raised e) (by simp) e)
+        · next he => exact absurd rfl (hn (.raised .modbusIO) (by simp) .modbusIO)
+        · next m he =>
+          simp only [he]
+          exact ih _ hlen (wf_drop _ _ hw) (fun e hm => hn e (List.mem_cons_of_mem _ hm))
+      · next hv =>
+        simp only [hv]
+        exact ih _ hlen (wf_drop _ _ hw) hn
+
+/-- … as a statement about `processIncomingPacket`: whatever is buffered and whatever arrives, in whatever chunking,
+    the backlog after the call is below 268 bytes (the unconditional "backlog stays bounded" clause, server side) -/
+theorem rtu_server_backlog_bounded (decode : Bytes → PyM (Option μ)) (units : List Nat) (single : Bool)
+    (buf chunk : Bytes) (hw : Bytes.WF (buf ++ chunk))
+    (hn : NoRaise (feed (rtuStep rtuRuleServer) decode units single buf chunk).1) :
+    (feed (rtuStep rtuRuleServer) decode units single buf chunk).2.length < 268 :=
+  rtu_server_run_backlog decode units single _ _ (Nat.lt_succ_self _) hw hn
+
+def _root_.Pymodbus.Framer.Step.isFrame : Step → Bool
+  | .frame .. => true
+  | _ => false
+
+/-- the hypothesis RTU needs (no delimiters): along the reads `cs`, the window that starts at the head of the noise
+    `b` never passes the CRC ("no false frame starts in the garbage"; probability about 2^-16 per window, evaluated
+    and counted by the harness on every generated case) -/
+def NoFalseFrame (rule : Nat → RtuRule) : Bytes → List Bytes → Prop
+  | _, [] => True
+  | b, c :: cs => (rtuStep rule (b ++ c)).isFrame = false ∧ NoFalseFrame rule (b ++ c) cs
+
+instance instDecNoFalseFrame (rule : Nat → RtuRule) : (b : Bytes) → (cs : List Bytes) → Decidable (NoFalseFrame rule b cs)
+  | _, [] => isTrue trivial
+  | b, c :: cs =>
+    have := instDecNoFalseFrame rule (b ++ c) cs
+    by unfold NoFalseFrame; exact inferInstance
+
+/-- one read on top of noise: nothing is delivered, and the receiver either keeps waiting (buffer = noise + read,
+    still shorter than 268 bytes) or has flushed (empty buffer) -/
+theorem rtu_noise_read (decode : Bytes → PyM (Option μ)) (units : List Nat) (single : Bool) (b c : Bytes)
+    (hnf : (rtuStep rtuRuleServer (b ++ c)).isFrame = false) (hw : Bytes.WF (b ++ c)) :
+    (feed (rtuStep rtuRuleServer) decode units single b c = ([], b ++ c) ∧ (b ++ c).length < 268) ∨
+    feed (rtuStep rtuRuleServer) decode units single b c = ([], []) := by
+  unfold feed
+  rw [run]
+  split
+  · next hs =>
+    left
+    refine ⟨rfl, ?_⟩
+    by_cases hl : 268 ≤ (b ++ c).length
+    · exact absurd hs (rtu_server_decides _ hw hl)
+    · omega
+  · right; rfl
+  · next n hs => exact absurd hs (rtu_step_kinds _ _ _)
+  · next n pdu uid tid pid hs => rw [hs] at hnf; cases hnf
+
+/-- RTU, server direction, resynchronisation: after noise `b` on which the receiver waits, ANY traffic `cs` — valid or
+    not, in any chunking — that brings the total to 268 bytes makes the receiver flush, unless a false frame starts
+    in the noise: some prefix of the reads ends with an empty buffer and nothing delivered before.  From there
+    `later_frames_delivered` applies: every later valid frame is delivered.  (What is lost is everything up to the
+    END of the read that triggers the flush — see `rtu_flush_discards_read_counterexample`.) -/
+theorem rtu_server_resync (decode : Bytes → PyM (Option μ)) (units : List Nat) (single : Bool) (b : Bytes)
+    (cs : List Bytes) (hnf : NoFalseFrame rtuRuleServer b cs) (hb : b.length < 268) (hw : Bytes.WF (b ++ cs.flatten))
+    (hl : 268 ≤ (b ++ cs.flatten).length) :
+    ∃ k, k ≤ cs.length ∧
+      feedAll (rtuStep rtuRuleServer) decode units single b (cs.take k) = (List.replicate k [], []) := by
+  induction cs generalizing b with
+  | nil => simp at hl; omega
+  | cons c cs ih =>
+    have hw1 : Bytes.WF (b ++ c) := fun x hx => hw x (by
+      simp only [List.flatten_cons, List.mem_append] at hx ⊢
+      rcases hx with h | h
+      · exact Or.inl h
+      · exact Or.inr (Or.inl h))
+    rcases rtu_noise_read decode units single b c hnf.1 hw1 with ⟨he, hlt⟩ | he
+    · obtain ⟨k, hk, hfa⟩ := ih (b ++ c) hnf.2 hlt
+        (by simpa [List.append_assoc] using hw) (by simpa [List.append_assoc] using hl)
+      refine ⟨k + 1, by simp; omega, ?_⟩
+      simp only [List.take_succ_cons, feedAll, he, hfa, List.replicate_succ]
+    · refine ⟨1, by simp, ?_⟩
+      simp [feedAll, he]
+
+/-- the whole RTU statement, server side: noise, then reads totalling 268 bytes (no false frame), then ANY valid
+    frames `fs` in ANY chunking `later`: all of `fs` are delivered, in order, and the backlog ends at zero -/
+theorem rtu_server_never_deaf (decode : Bytes → PyM (Option μ)) (units : List Nat) (single : Bool) (b : Bytes)
+    (cs : List Bytes) (hnf : NoFalseFrame rtuRuleServer b cs) (hb : b.length < 268) (hw : Bytes.WF (b ++ cs.flatten))
+    (hl : 268 ≤ (b ++ cs.flatten).length)
+    (fs : List (VFrame μ)) (hfs : ∀ f ∈ fs, IsBuilt (.rtu rtuRuleServer) decode units single f)
+    (later : List Bytes) (hc : later.flatten = stream fs) :
+    ∃ k, k ≤ cs.length ∧
+      (feedAll (rtuStep rtuRuleServer) decode units single b (cs.take k)).1.flatten = [] ∧
+      (feedAll (rtuStep rtuRuleServer) decode units single
+        (feedAll (rtuStep rtuRuleServer) decode units single b (cs.take k)).2 later).1.flatten =
+          fs.map (fun f => Ev.deliver f.msg f.uid f.tid f.pid) ∧
+      (feedAll (rtuStep rtuRuleServer) decode units single
+        (feedAll (rtuStep rtuRuleServer) decode units single b (cs.take k)).2 later).2 = [] := by
+  obtain ⟨k, hk, hfa⟩ := rtu_server_resync decode units single b cs hnf hb hw hl
+  refine ⟨k, hk, ?_, ?_⟩
+  · rw [hfa]; simp
+  · rw [hfa]
+    exact later_frames_delivered (.rtu rtuRuleServer) decode units single fs hfs later hc
+
+/-- Non-vacuity of `rtu_server_resync`: the noise head of the known finding, 30 valid requests in one read, 50 in the next -/
+example : NoFalseFrame rtuRuleServer [1, 16, 0, 0, 0, 100, 247]
+    [(List.replicate 30 [1, 3, 0, 1, 0, 1, 213, 202]).flatten, (List.replicate 50 [1, 3, 0, 1, 0, 1, 213, 202]).flatten] := by
+  decide +kernel
+
 /-- a flush leaves an empty buffer: the next frame boundary is a synchronisation point -/
 theorem rtu_flush_resync (rule : Nat → RtuRule) (decode : Bytes → PyM (Option μ)) (units : List Nat) (single : Bool)
     (buf : Bytes) (fuel : Nat) (h : rtuStep rule buf = .flush) :
@@ -125,6 +275,21 @@ theorem rtu_flush_resync (rule : Nat → RtuRule) (decode : Bytes → PyM (Optio
 theorem rtu_client_counterexample :
     rtuSize rtuRuleClient [1, 24, 255, 255] = .ok 65541 ∧
     rtuStep rtuRuleClient ([1, 24, 255, 255] ++ List.replicate 60 0) = .wait := ⟨rfl, rfl⟩
+
+/-- known finding `rtu-flush-discards-read` in the model (either direction; here the server's): 7 bytes of noise
+    announce a 256-byte frame; 240 bytes of valid requests arrive (the receiver waits: 247 < 256); then ONE read
+    brings 50 more requests (400 bytes).  The window fails its CRC and the flush takes the whole buffer: nothing of
+    that read is delivered — not even its last 16 requests, which start after 512 bytes of valid traffic.  The
+    receiver is empty (aligned) afterwards. -/
+theorem rtu_flush_discards_read_counterexample :
+    let dec : Bytes → PyM (Option Bytes) := fun pdu => .ok (some pdu)
+    let req : Bytes := [1, 3, 0, 1, 0, 1, 213, 202]
+    let noise : Bytes := [1, 16, 0, 0, 0, 100, 247]
+    let r1 := feed (rtuStep rtuRuleServer) dec [1] false noise ((List.replicate 30 req).flatten)
+    let r2 := feed (rtuStep rtuRuleServer) dec [1] false r1.2 ((List.replicate 50 req).flatten)
+    let r3 := feed (rtuStep rtuRuleServer) dec [1] false r2.2 req
+    r1.1 = [] ∧ r1.2.length = 247 ∧ r2.1 = [] ∧ r2.2 = [] ∧ r3.1.length = 1 ∧ r3.2 = [] := by
+  decide +kernel
 
 /-- Non-vacuity: noise that looks like the start of a frame, then a valid frame, then the receiver is empty. -/
 example : (feed asciiStep (fun pdu => (.ok (some pdu) : PyM (Option Bytes))) [1] false [58, 48, 49, 13]
